@@ -31,6 +31,8 @@ structure StoState where
   keys : List Key := []
   nextId : Nat := 0
   marked : List Nat := []
+  /-- the key of the latest `reserve` if it succeeded and has not been used by `inskl` yet -/
+  fresh : Option Key := Option.none
 
 def showKey (k : Key) : String := s!"{k.index}.{k.generation}"
 def showIds (l : List Nat) : String := if l.isEmpty then "-" else String.intercalate "." (l.map toString)
@@ -61,9 +63,9 @@ abbrev Res := StoState × Except SFault String
 def opReserve (st : StoState) (b : Store TRes) : Res :=
   match b.tryReserve with
   | .error e => (st, .error e)
-  | .ok (none, b') => ({ st with sto := st.sto.setBase b' }, .ok s!"limit len={b'.len}")
+  | .ok (none, b') => ({ st with sto := st.sto.setBase b', fresh := Option.none }, .ok s!"limit len={b'.len}")
   | .ok (some k, b') =>
-    ({ st with sto := st.sto.setBase b', keys := st.keys ++ [k] }, .ok s!"ok {showKey k} len={b'.len}")
+    ({ st with sto := st.sto.setBase b', keys := st.keys ++ [k], fresh := some k }, .ok s!"ok {showKey k} len={b'.len}")
 
 /-- the part of `insert_with_key` after the yield site -/
 def opPush (st : StoState) (b0 : Store TRes) (k : Key) (pre : String) : Res :=
@@ -129,6 +131,13 @@ def stoSeqStep (st : StoState) (tok : List String) : Option Res :=
       let j ← nat? j; let b ← st.sto.base; let k ← st.keys[j]?
       let b1 := b.drainUnused
       pure (opPush { st with sto := st.sto.setBase b1 } b k "ok ")
+  | ["inskl"] => do
+      let b ← st.sto.base
+      match st.fresh with
+      | Option.none => pure (st, .ok "skip")
+      | some k =>
+        let b1 := b.drainUnused
+        pure (opPush { st with sto := st.sto.setBase b1, fresh := Option.none } b k "ok ")
   | ["ins"] => do
       let b ← st.sto.base
       match b.tryReserve with
@@ -193,6 +202,11 @@ def startOp (who : Bool) (w : StoWorld) (tok : List String) : StoWorld × Option
     match (nat? j).bind (fun j => st.keys[j]?) with
     | some k => ({ w with st := { st with sto := st.sto.setBase b.drainUnused } }, some (.push b k "ok "))
     | Option.none => (w.put who (st, .ok "bad"), Option.none)
+  | ["inskl"], some b =>
+    match st.fresh with
+    | some k =>
+      ({ w with st := { st with sto := st.sto.setBase b.drainUnused, fresh := Option.none } }, some (.push b k "ok "))
+    | Option.none => (w.put who (st, .ok "skip"), Option.none)
   | ["ins"], some b =>
     match b.tryReserve with
     | .error e => ({ w with err := some e }, Option.none)
@@ -227,17 +241,17 @@ def startOp (who : Bool) (w : StoWorld) (tok : List String) : StoWorld × Option
 /-- resume after a yield site; may yield again (fine mode) -/
 def resume (who : Bool) (w : StoWorld) : Cont → StoWorld × Option Cont
   | .push b0 k pre => (w.put who (opPush w.st b0 k pre), Option.none)
-  | .add b0 =>
+  | .add _b0 =>
     let st := w.st
     match st.sto with
     | .plain s =>
       match s.addPhase with
       | .error e => ({ w with err := some e }, Option.none)
-      | .ok (s', _) => (w.put who ({ st with sto := .plain s' }, .ok (raaResult b0 s')), Option.none)
+      | .ok (s', _) => (w.put who ({ st with sto := .plain s' }, .ok s!"ok items={showItems s'.iter}"), Option.none)
     | .self ss =>
       match ss.addPhase with
       | .error e => ({ w with err := some e }, Option.none)
-      | .ok ss' => (w.put who ({ st with sto := .self ss' }, .ok (raaResult b0 ss'.base)), Option.none)
+      | .ok ss' => (w.put who ({ st with sto := .self ss' }, .ok s!"ok items={showItems ss'.base.iter}"), Option.none)
     | .none => (w, Option.none)
   | .drain b0 rest hand =>
     let st := w.st
